@@ -15,17 +15,13 @@ impl Compiler {
                 TypedStmtKind::Function(func) => {
                     self.globals.insert(func.name.clone(), false);
                     if !self.global_indices.contains_key(&func.name) {
-                        let idx = self.next_global_index;
-                        self.global_indices.insert(func.name.clone(), idx);
-                        self.next_global_index += 1;
+                        self.alloc_global_index(&func.name)?;
                     }
                 }
                 TypedStmtKind::Let { name, mutable, .. } => {
                     self.globals.insert(name.clone(), *mutable);
                     if !self.global_indices.contains_key(name) {
-                        let idx = self.next_global_index;
-                        self.global_indices.insert(name.clone(), idx);
-                        self.next_global_index += 1;
+                        self.alloc_global_index(name)?;
                     }
                 }
                 _ => {}
